@@ -16,6 +16,7 @@ import Bita.Proofs.ChunkStream
 import Bita.Proofs.ReaderEnv
 import Bita.Proofs.Alloc
 import Bita.Proofs.HttpBounds
+import Bita.Proofs.ScanMemory
 
 namespace Bita.Props.C15
 open Bita Bita.Spec
@@ -229,6 +230,69 @@ example :
     -- a "codec" that expands 3 stored bytes to 5000: refused when 100 are declared, passed when 5000 are
     limitedDecomp (fun _ _ => some (List.replicate 5000 0)) 3 [1, 2, 3] 100 = none ∧
     (limitedDecomp (fun _ _ => some (List.replicate 5000 0)) 3 [1, 2, 3] 5000).isSome = true := by
+  decide +kernel
+
+/-- **Resource clause for the seed scan's chunker.**  The chunker built from the parameters of any
+archive that opened asks the allocator for the stream buffer (1 MiB) and for the rolling-hash
+window: for BuzHash four bytes per window entry, and the reader accepts a BuzHash window only up to
+the declared maximum chunk size - so at most four times the chunk size the format declares; for
+RollSum one byte per entry of the declared window (a 32-bit field).  (This is the exact form of the
+"16 GiB for a 4 GiB window" observation of DESIGN.md section 6: bounded by what is declared, times 4.) -/
+theorem accepted_archive_chunker_allocation_bounded (H : Bytes → Bytes) (features : List Nat)
+    (read : Nat → Nat → Option Bytes) (a : Archive) (h : tryInit H features read = .ok a) :
+    ∀ n ∈ chunkerAllocations a.config,
+      match a.config with
+      | .buzhash f => n ≤ max (4 * f.maxSize) Gen.refillSize
+      | .rollsum f => n ≤ max f.window Gen.refillSize
+      | .fixed _ => n ≤ Gen.refillSize := by
+  have hacc := (Proofs.tryInit_ok_facts H features read a h).1
+  intro n hn
+  cases hc : a.config with
+  | buzhash f =>
+    rw [hc] at hn hacc
+    simp only [configAccepted, decide_eq_true_eq] at hacc
+    simp only [chunkerAllocations, List.mem_cons, List.mem_nil_iff, or_false] at hn
+    have : (4 * 256 : Nat) ≤ Gen.refillSize := by decide
+    rcases hn with rfl | rfl | rfl <;> simp only <;> omega
+  | rollsum f =>
+    rw [hc] at hn
+    simp only [chunkerAllocations, List.mem_cons, List.mem_nil_iff, or_false] at hn
+    rcases hn with rfl | rfl <;> simp only <;> omega
+  | fixed m =>
+    rw [hc] at hn
+    simp only [chunkerAllocations, List.mem_cons, List.mem_nil_iff, or_false] at hn
+    subst hn; exact Nat.le_refl _
+
+/-- **Resource clause for the seed scan's buffer.**  Scanning any data (a seed, the prior output) with
+the chunker parameters of any archive that opened: the chunker asks for more data only while less
+than one maximum-size chunk is buffered, so every capacity the streaming chunker's buffer is grown to
+is below `2 * (declared maximum chunk size + REFILL_SIZE)` - whatever the data, its length and the
+amounts the reads deliver.  (`BytesMut::reserve`'s amortised growth is a modelled dependency; the
+in-process allocation probe of `l1 fmt` judges the same bound on the real scan.) -/
+theorem accepted_archive_scan_buffer_bounded (H : Bytes → Bytes) (features : List Nat)
+    (read : Nat → Nat → Option Bytes) (a : Archive) (h : tryInit H features read = .ok a)
+    (data : Bytes) (script : List Rd) :
+    ∀ e ∈ SC.caps ⟨0, data, 0, Chunker.ofConfig a.config⟩ Gen.refillSize script,
+      e.1 < 2 * (Proofs.WriterDescr.maxChunk a.config + Gen.refillSize) ∧ e.2 ≤ e.1 :=
+  Proofs.scan_capacity_bounded a.config
+    ((Proofs.configAccepted_iff_valid a.config).1 (Proofs.tryInit_ok_facts H features read a h).1) data script
+
+/-- ... for every valid configuration, and the step it rests on: `Chunker::next` answers "need more
+data" only on a buffer shorter than the maximum chunk size. -/
+theorem scan_buffer_bounded (cfg : Config) (hv : cfg.Valid) (data : Bytes) (script : List Rd) :
+    ∀ e ∈ SC.caps ⟨0, data, 0, Chunker.ofConfig cfg⟩ Gen.refillSize script,
+      e.1 < 2 * (Proofs.WriterDescr.maxChunk cfg + Gen.refillSize) ∧ e.2 ≤ e.1 :=
+  Proofs.scan_capacity_bounded cfg hv data script
+
+theorem chunker_wants_data_only_below_max (c : Chunker) (rest : Bytes) (n : Nat) (c' : Chunker)
+    (hi : Proofs.CS.CInv c n) (hl : n ≤ rest.length) (hn : c.next rest n = (c', none)) :
+    n < Proofs.chunkerMax c :=
+  (Proofs.next_none_lt_max c rest n c' hi hl hn).1
+
+-- non-vacuity: a scan whose buffer is grown once (20 bytes in fixed-size chunks of 5, reads of 9: after the
+-- first chunk 4 bytes are left and fewer than REFILL_SIZE are spare, so the capacity doubles), within the bound
+example : SC.caps ⟨0, List.replicate 20 0, 0, Chunker.ofConfig (.fixed 5)⟩ Gen.refillSize
+    [.bytes 9, .bytes 9, .bytes 9, .bytes 9] = [(1048576, 9), (2097152, 13), (2097152, 5)] := by
   decide +kernel
 
 end Bita.Props.C15
